@@ -394,6 +394,7 @@ def replay(path, rep):
 
 def run(tier, seed, rep):
     quick = tier == 'quick'
+    S()                        # build / load caches once; workers are forked after
     cfgname = 'Config_2.cfg' if quick else 'Config_3.cfg'
     r = lib.run_tlc('Config', cfgname, timeout=3000, deadlock=False)
     if r.violated:
